@@ -1117,6 +1117,9 @@ decl(struct scope *s, struct func *f)
 					tentativedefnsend = &d->next;
 				}
 				break;
+			} else if (d->defined) {
+				/* a repeated declaration of a thread-local object, which was defined by the first one */
+				break;
 			}
 			defineobj(d, init, hasinit, f);
 			break;
